@@ -22,16 +22,16 @@ checks = {
  "C05": ("same closure as C01; oracle = introduced-in protocol of every decoded opcode, PROTO header rule, 7-bit rule for protocol 0",
          "Every opcode occurrence of every explored output (incl. the collapse tail) is compared with the protocol table of pickletools.", "as C01", "§4 C05"),
  "C06": ("closure as C04 (all configurations incl. unsafe, FRAME coin both ways); oracle = at most one FRAME, directly after PROTO, length == bytes after its argument",
-         "Both outcomes of the FRAME coin are explored in every state of the box for protocols 4 and 5; absence is checked for 0-3.", "as C04", "§4 C06"),
- "C07": ("replay of every run of a state box on other threads; enumeration of memo hash-map iteration orders through a hasher seam (all k! orders for k<=3 required); exhaustive schedules of 2-3 concurrent generators at draw granularity with preemption bound 0..2(3); fresh processes / rayon worker counts sampled",
+         "Both outcomes of the FRAME coin are explored in every state of the box for protocols 4 and 5; absence is checked for 0-3; 20 005-opcode programs (framed and unframed) and small pickles after a 12 000-opcode one on the same generator are judged from the bytes.", "as C04", "§4 C06"),
+ "C07": ("replay of every run of a state box on other threads; enumeration of memo hash-map iteration orders through a hasher seam (all k! orders for k<=3 required); exhaustive schedules of 2-3 concurrent generators at draw granularity with preemption bound 0..2(3); fresh processes / rayon worker counts sampled; one configuration reached through four builder / field routes",
          "Purity is decided by enumeration where the nondeterminism source can be owned (hash order incl. 258-entry memos and mutator direction draws, schedules, threads, every ordered pair of 9 configurations in fresh processes) and sampled where it cannot (addresses, worker counts).",
          "interleavings only at entropy-draw granularity; pointer-hashed containers and ASLR only sampled", "§4 C07"),
  "C08": ("all call histories (generate_from_arbitrary x inputs, generate, reset) up to length 3 (4) on one generator; differential oracle against a fresh generator",
-         "No expected bytes are written by hand: the i-th call must return what a fresh, equally configured generator returns; size-class histories put a 14k-30k opcode result before small ones.", "call alphabet of 6 (8) calls plus range assignments; history length bound", "§4 C08"),
+         "No expected bytes are written by hand: the i-th call must return what a fresh, equally configured generator returns; size-class histories put a 14k-30k opcode result before small ones; the opt-in flags are changed between calls (all ordered pairs of flag settings).", "call alphabet of 6 (8) calls plus range assignments; history length bound", "§4 C08"),
  "C09": ("alias-exact closure of all opcode sequences up to Lp; all 65,793 byte strings of length <= 2 x configurations; degenerate knob grid (NaN/out-of-range rates, min>max); 10k (30k) opcode strategies in child processes on a 2 MiB stack with a watchdog; mutator lists as multisets (ordered pairs incl. repeated mutators)",
          "Ok / non-empty / no unwind / child exit 0 on everything enumerated; plus kind-keyed and alias-relation closures with value deviations; an in-process hang ends the check with a VIOLATION through the watchdog.", "termination is judged by a watchdog (45 s / 180 s per generation); harness built with overflow checks on", "§4 C09"),
  "C10": ("closure for the four flag combinations x {none, all-unsafe, reversed-unsafe} per protocol; oracle = histogram of decoded opcodes",
-         "EXT*/buffer opcodes never occur unless their flag is on, also under type confusion and byte rewriting.", "as C04", "§4 C10"),
+         "EXT*/buffer opcodes never occur unless their flag is on, also under type confusion and byte rewriting, through the CLI with each flag on its own, and on a generator whose flags were changed between two calls.", "as C04", "§4 C10"),
  "C11": ("every answer of the T draw for every (min,max) pair of a grid incl. inverted/zero; closure of the state box with a per-step accounting oracle (one opcode per step, tail <= 2T+1, total bounds)",
          "T selection (header logic) and per-step/tail accounting (body logic) are enumerated separately and completely within their grids.", "range grid, not all usize pairs", "§4 C11"),
  "C12": ("existential: fixed seed range 0..20000 (200000) per protocol swept until every vocabulary opcode and both FRAME outcomes have a witness; plus shortest witnesses from the exhaustive closure",
@@ -42,9 +42,9 @@ checks = {
  "C14": ("alias-exact closure of all opcode sequences up to Lp, each path re-run untraced between two readings of a per-thread live-heap counter; generate/reset/drop histories",
          "Zero live bytes after drop for every explored path implies bounded memory for any sequence; the alias-relation closure (kinds + which roots alias / reach each other) runs to fixpoint, cycle-building paths are repeated on one generator.", "counting global allocator in the harness process; depth box / path length bound", "§4 C14"),
  "C15": ("unit enumeration of every (mutator, method, value, gate answer over the f64 alphabet incl. exhausted input) at rate 0.0 and 1.0; closure of a state box per configuration with every gate draw enumerated",
-         "Rate 0 never fires / rewrites, rate 1 lets the first applicable mutator fire, in both entropy modes.", "applicability table from the documentation; PRNG seeds are a sweep", "§4 C15"),
+         "Rate 0 never fires / rewrites, rate 1 lets the first applicable mutator fire, in both entropy modes; also with mutator instances created with the other unsafe flag than the generator's.", "applicability table from the documentation; PRNG seeds are a sweep", "§4 C15"),
  "C16": ("exhaustive enumeration: every mutator x method x boundary value list x (gate + every byte string of length <= 2 + edge continuations + seeds); type confusion on all 256 first bytes x every wrong-type answer",
-         "Contract sentences of the statement are evaluated on every call; panics are caught per call.", "value lists are boundary-exhaustive, not all 2^32/2^64", "§4 C16"),
+         "Contract sentences of the statement are evaluated on every call; panics are caught per call; type confusion also as a chain of 2-3 instances on one emission.", "value lists are boundary-exhaustive, not all 2^32/2^64", "§4 C16"),
  "C17": ("same closure as C01; on every transition each hook snapshot of the simulated stack/memo is compared with the reference machine advanced over exactly the bytes emitted so far",
          "Depth, MARK positions, slot-by-slot kind compatibility and memo key set after every emitted opcode; the product state is part of the key so drift cannot hide behind merging.",
          "as C01; the oracle does not demand that the simulation pops the result at STOP", "§4 C17"),
